@@ -1,5 +1,5 @@
 (** * C12 — scanning, parsing and compiling are total (partial). *)
-From PQL Require Import Model.Compile Model.Walk Proofs.LexerFacts Proofs.TableFacts Proofs.WriterFacts.
+From PQL Require Import Model.Compile Model.Walk Model.Parser Proofs.LexerFacts Proofs.TableFacts Proofs.WriterFacts Proofs.WalkFacts Proofs.WalkTree.
 From Coq Require Import String.
 Local Open Scope list_scope.
 Local Open Scope nat_scope.
@@ -29,3 +29,12 @@ Print Assumptions C12_walk_no_default.
 Theorem C12_paren_unwrap_terminates : forall c w l x r, wx c w (EParen l x r) = wx c w x.
 Proof. exact wx_paren. Qed.
 Print Assumptions C12_paren_unwrap_terminates.
+
+(** Walk over any statement the parser can build returns normally for every visitor *)
+Theorem C12_walk_total : forall visitor s,
+  exists vs, forall fuel, length vs < fuel -> walk_loop fuel visitor 0 [WNode (g_stmt s)] [] = WOk vs.
+Proof.
+  intros visitor s. destruct (walk_is_preorder visitor (g_stmt s) (walkable_stmt s)) as (vs & c' & _ & H).
+  exists vs. exact H.
+Qed.
+Print Assumptions C12_walk_total.
